@@ -86,7 +86,7 @@ func runSelftest(args []string) int {
 					json.Unmarshal(line, &res)
 					var sig string
 					for k := range res.Runs {
-						sig += runSignature(&res.Runs[k]) + fmt.Sprintf("|%v|%d;", res.Runs[k].Fired, res.Runs[k].Map.Ranges2)
+						sig += runSignature(&res.Runs[k]) + fmt.Sprintf("|%v|%d|steps=%d;", res.Runs[k].Fired, res.Runs[k].Map.Ranges2, res.Runs[k].Steps)
 					}
 					sigs[i] = sig
 				}(i)
